@@ -130,12 +130,68 @@ def find_axis_loop(fn, ind):
     return None
 
 
+def _ctor_copies_vector(repo):
+    """does Individual.__init__ store a copy of its vector argument (self.vector = vector.copy() / list(vector) / vector[:])?"""
+    if not repo.has_cls("Individual"):
+        return False
+    r = repo.find_method(repo.cls("Individual", "individual"), "__init__")
+    if not r:
+        return False
+    init = r[1]
+    ps = func_params(init)
+    if len(ps) < 2:
+        return False
+    me, v = ps[0], ps[1]
+    for s_ in ast.walk(init):
+        if isinstance(s_, ast.Assign) and any(access_path(t) == me + ".vector" for t in s_.targets) and is_fresh_copy_of(s_.value, v):
+            return True
+    return False
+
+
+def _canon_child_copy(add, ind, repo):
+    """c = Individual(P.vector); c.vector[i] += E   ->   v = P.vector.copy(); v[i] += E; c = Individual(v)
+    (the constructor stores a copy of its argument, so displacing the child's own vector is displacing a fresh copy)"""
+    import copy as _copy
+    if not _ctor_copies_vector(repo):
+        return add
+    add = _copy.deepcopy(add)
+    k = [0]
+
+    def rewrite(body):
+        i = 0
+        while i + 1 < len(body):
+            a, b = body[i], body[i + 1]
+            if isinstance(a, ast.Assign) and len(a.targets) == 1 and isinstance(a.targets[0], ast.Name) and isinstance(a.value, ast.Call) \
+                    and (access_path(a.value.func) or "").split(".")[-1].startswith("Individual") and len(a.value.args) == 1 and access_path(a.value.args[0]) == ind + ".vector" \
+                    and isinstance(b, ast.AugAssign) and isinstance(b.target, ast.Subscript) and access_path(b.target.value) == a.targets[0].id + ".vector":
+                k[0] += 1
+                v = "__vcopy%d" % k[0]
+                cp = ast.Assign(targets=[ast.Name(id=v, ctx=ast.Store())],
+                                value=ast.Call(func=ast.Attribute(value=a.value.args[0], attr="copy", ctx=ast.Load()), args=[], keywords=[]))
+                b2 = ast.AugAssign(target=ast.Subscript(value=ast.Name(id=v, ctx=ast.Load()), slice=b.target.slice, ctx=ast.Store()), op=b.op, value=b.value)
+                a2 = ast.Assign(targets=a.targets, value=ast.Call(func=a.value.func, args=[ast.Name(id=v, ctx=ast.Load())], keywords=[]))
+                for n_ in (cp, b2, a2):
+                    ast.copy_location(n_, a)
+                    ast.fix_missing_locations(n_)
+                body[i:i + 2] = [cp, b2, a2]
+                i += 3
+                continue
+            i += 1
+        for st in body:
+            for f_, v_ in ast.iter_fields(st):
+                if isinstance(v_, list) and v_ and isinstance(v_[0], ast.stmt):
+                    rewrite(v_)
+    rewrite(add.body)
+    return add
+
+
 def r2_neighbours(ctx, repo, cls, kind):
     mod = cls.module
     add = cls.methods.get("add")
     construct = "%s.add" % cls.name
     if add is None:
         raise AnalysisError("%s.add not found" % cls.name)
+    add = _canon_child_copy(add, func_params(add)[1], repo)
     params = func_params(add)
     selfn, ind = params[0], params[1]
     defs = single_defs(add)
